@@ -70,7 +70,11 @@ func c19ExecOverlap(sc c19Overlap) string {
 			t0 := time.Now()
 			hc.Stop()
 			anyReturned.Store(true)
-			if d := time.Since(t0).Microseconds(); d > slowest.Load() {
+			el := time.Since(t0)
+			if el -= recentStall(el + 10*time.Millisecond); el < 0 {
+				el = 0
+			}
+			if d := el.Microseconds(); d > slowest.Load() {
 				slowest.Store(d)
 			}
 		}
